@@ -135,6 +135,9 @@ pub struct GenCfg {
     pub f_global_effects: bool,
     /// break / continue statements (they leave block scopes; quarantined where KF-C14-3 applies)
     pub f_break: bool,
+    /// the main function is synchronous and nothing awaits (module bodies that must run to
+    /// completion without the host)
+    pub sync_main: bool,
 }
 
 impl GenCfg {
@@ -164,6 +167,7 @@ impl GenCfg {
             f_timeish: on(0.5),
             f_global_effects: false,
             f_break: true,
+            sync_main: false,
         }
     }
 }
@@ -1633,7 +1637,7 @@ impl<'a> Gen<'a> {
                 "class {p}K extends {p}B {{ #p: any = 1; constructor(v: any) {{ super(v); this.#p = v; }} get g(): any {{ return (Number(this.#p) || 0) + 1; }} m(x: any): any {{ return super.m(x) + {p}B.s(1); }}{extra} }}"
             )));
         }
-        self.in_async = true;
+        self.in_async = !self.cfg.sync_main;
         let n = self.cfg.size;
         self.budget = n as isize;
         let mut body = Vec::new();
@@ -1655,7 +1659,11 @@ impl<'a> Gen<'a> {
             .map(|v| v.name.clone())
             .collect();
         body.push(Node::leaf(format!("return __show([{}]);", finals.join(", "))));
-        let main = Node::block(format!("async function {p}main(): Promise<any> {{"), body, "}");
+        let main = if self.cfg.sync_main {
+            Node::block(format!("function {p}main(): any {{"), body, "}")
+        } else {
+            Node::block(format!("async function {p}main(): Promise<any> {{"), body, "}")
+        };
         let mut kids = Vec::new();
         kids.push(Node::leaf(hole_prelude(variant, &self.answers)));
         kids.push(Node::leaf(
@@ -1664,8 +1672,9 @@ impl<'a> Gen<'a> {
         kids.push(Node::leaf(SHOW_PRELUDE));
         kids.extend(decls);
         kids.push(main);
+        let aw = if self.cfg.sync_main { "" } else { "await " };
         kids.push(Node::leaf(format!(
-            "let {p}r: any; try {{ {p}r = await {p}main(); }} catch (e: any) {{ {p}r = \"threw:\" + String(e && e.message !== undefined ? e.message : e); }}"
+            "let {p}r: any; try {{ {p}r = {aw}{p}main(); }} catch (e: any) {{ {p}r = \"threw:\" + String(e && e.message !== undefined ? e.message : e); }}"
         )));
         kids.push(Node::leaf(format!("{p}r + \"|\" + __log.join(\";\")")));
         Program {
